@@ -9,12 +9,17 @@ pub mod c16;
 pub mod c17;
 pub mod c18;
 pub mod c20;
+pub mod cconc;
 pub mod cmat;
 
 use crate::runner::Check;
 
 pub fn all() -> Vec<Box<dyn Check>> {
     vec![
+        Box::new(cconc::C01),
+        Box::new(cconc::C04),
+        Box::new(cconc::C05),
+        Box::new(cconc::C06),
         Box::new(c02::C02),
         Box::new(c03::C03),
         Box::new(c07::C07),
